@@ -38,32 +38,29 @@ def main(argv):
         src = os.path.abspath(argv[0])
         prefix = argv[1] if len(argv) > 1 else os.path.basename(os.path.dirname(src.rstrip('/')))
         items = [('%s-%s' % (prefix, os.path.basename(d)[:-5]), d) for d in sorted(glob.glob(os.path.join(src, '*.diff')))]
-    for name, diff in items:
+    def one(item):
+        name, diff = item
         wt = '/tmp/wtv/benign-%s' % name
-        sh('rm -rf %s; git -C /repo worktree prune; git -C /repo worktree add -q --detach %s HEAD' % (wt, wt))
+        lines = []
+        nbad = 0
+        sh('rm -rf %s; mkdir -p %s; cp -r /repo/hl7apy %s/hl7apy' % (wt, wt, wt))
         try:
-            r = sh('git apply %s' % diff, cwd=wt)
+            r = sh('patch -p1 -s -d %s -i %s' % (wt, diff))
             if r.returncode:
-                print('BENIGN %s: patch does not apply: %s' % (name, r.stdout.strip()[:120]))
-                continue
+                return ['BENIGN %s: patch does not apply: %s' % (name, r.stdout.strip()[:120])], 0
             r = sh('/venv/bin/python -m compileall -q hl7apy', cwd=wt)
             if r.returncode:
-                print('BENIGN %s: does not compile' % name)
-                continue
-            tests = ''
-            if run_tests:
-                t = sh('/venv/bin/python -m pytest -q -p no:cacheprovider --timeout=900 2>&1 | tail -1', cwd=wt).stdout.strip()
-                tests = ' tests=[%s]' % t[:40]
-            with ThreadPoolExecutor(max_workers=int(os.environ.get('JOBS', '14'))) as ex:
-                res = list(ex.map(lambda p: run_check(p, wt), PIDS))
-            alarms = [(p, c, o) for p, c, o in res if c != 0]
-            print('BENIGN %s: %s%s' % (name, 'silent on all 19 checks' if not alarms else
-                                       'ALARM ' + ' '.join('%s(exit %d)' % (p, c) for p, c, o in alarms), tests))
-            for p, c, o in alarms:
-                bad += 1
-                for l in o.splitlines():
-                    if l.startswith(('FINDING', 'ANALYSIS-ERROR')):
-                        print('   ' + l[:300])
+                return ['BENIGN %s: does not compile' % name], 0
+            env = dict(os.environ, HL7LINT_REPO=wt, HL7LINT_NOEVIDENCE='1')
+            p = subprocess.run([os.path.join(VERIF, 'check'), 'all'], env=env, stdout=subprocess.PIPE, stderr=subprocess.STDOUT,
+                               universal_newlines=True, cwd=VERIF)
+            bad_lines = [l for l in p.stdout.splitlines() if l.startswith(('FINDING', 'ANALYSIS-ERROR'))]
+            props = sorted({l.split('property=')[1].split()[0] + ('(exit 2)' if l.startswith('ANALYSIS') else '(exit 1)')
+                            for l in bad_lines})
+            lines.append('BENIGN %s: %s' % (name, 'silent on all 19 checks' if not bad_lines else 'ALARM ' + ' '.join(props)))
+            for l in bad_lines:
+                lines.append('   ' + l[:300])
+            nbad = len(props)
             keep = os.environ.get('KEEP')
             if keep and src:
                 d = os.path.join(VERIF, 'benign', name)
@@ -76,10 +73,16 @@ def main(argv):
                             note = n
                 except Exception:
                     pass
-                note['alarms_when_first_evaluated'] = ['%s(exit %d)' % (p, c) for p, c, o in alarms]
+                note['alarms_when_first_evaluated'] = props
                 json.dump(note, open(os.path.join(d, 'meta.json'), 'w'), indent=1)
         finally:
-            sh('git -C /repo worktree remove --force %s; rm -rf %s' % (wt, wt))
+            shutil.rmtree(wt, ignore_errors=True)
+        return lines, nbad
+    with ThreadPoolExecutor(max_workers=int(os.environ.get('JOBS', '14'))) as ex:
+        for lines, nbad in ex.map(one, items):
+            bad += nbad
+            for l in lines:
+                print(l)
     return 1 if bad else 0
 
 
